@@ -249,3 +249,67 @@ GROUND = [('ground/token-eq', 'token equality and truth-token class attributes a
 BOUNDED = [('bounded/infix', 'infix-to-postfix phase + evaluation equals an independent recursive-descent evaluation of the grammar',
             'all grammatical token sequences of length <= 7 (quick) / 9 (thorough) over 11 token kinds, plus random trees of depth <= 4', bounded_infix)]
 CLASSES = {}
+
+
+# ---------------------------------------------------------------- bounded: \lengthtest over lengths in mixed units (document level)
+from fractions import Fraction
+LUNIT = {'pt': Fraction(1), 'pc': Fraction(12), 'in': Fraction(7227, 100), 'bp': Fraction(7227, 7200), 'cm': Fraction(7227, 254), 'mm': Fraction(7227, 2540),
+         'dd': Fraction(1238, 1157), 'cc': Fraction(14856, 1157), 'sp': Fraction(1, 65536)}
+# the same length written in two units (exact rational arithmetic), and unequal neighbours
+SAME = [('1cm', '10mm'), ('1in', '72.27pt'), ('1pc', '12pt'), ('2.54cm', '1in'), ('1cc', '12dd'), ('10mm', '1cm'), ('72.27pt', '1in'), ('25.4mm', '1in'), ('3pt', '3pt'),
+        ('0.5in', '36.135pt')]
+
+
+def _val(s):
+    import re
+    m = re.fullmatch(r'(-?[0-9.]+)([a-z]+)', s)
+    return Fraction(m.group(1)) * LUNIT[m.group(2)]
+
+
+def gen_lengthtest(rng):
+    if rng.random() < 0.5:
+        a, b = rng.choice(SAME)
+    else:
+        a = '%s%s' % (rng.choice(['1', '2', '0.5', '10', '7.3', '28.45']), rng.choice(sorted(LUNIT)))
+        b = '%s%s' % (rng.choice(['1', '2', '0.5', '10', '7.3', '28.45']), rng.choice(sorted(LUNIT)))
+    return dict(a=a, b=b, rel=rng.choice('<>='))
+
+
+def check_lengthtest(w):
+    va, vb = _val(w['a']), _val(w['b'])
+    # TeX compares lengths as integers of scaled points; two lengths less than a scaled point apart may round either way, so only clear
+    # cases are asserted: exactly equal lengths, and lengths at least 2sp apart
+    if va != vb and abs(va - vb) * 65536 < 2:
+        return True, ''
+    exp = {'<': va < vb, '>': va > vb, '=': va == vb}[w['rel']]
+    t = TeX()
+    t.input('\\documentclass{article}\\usepackage{ifthen}\\begin{document}\\ifthenelse{\\lengthtest{%s%s%s}}{YES}{NO}\\end{document}' % (w['a'], w['rel'], w['b']))
+    got = t.parse().textContent.strip()
+    if got != ('YES' if exp else 'NO'):
+        return False, '\\lengthtest{%s%s%s} takes the %s branch; the comparison is %s' % (w['a'], w['rel'], w['b'], got, exp)
+    return True, ''
+
+
+def bounded_lengthtest(budget, rng):
+    import time
+    t0, n = time.time(), 0
+    for a, b in SAME:
+        for rel in '<>=':
+            n += 1
+            w = dict(a=a, b=b, rel=rel)
+            ok, d = check_lengthtest(w)
+            if not ok:
+                return False, n, d, w
+    while time.time() - t0 < min(budget, 40) * 0.5:
+        n += 1
+        w = gen_lengthtest(rng)
+        ok, d = check_lengthtest(w)
+        if not ok:
+            return False, n, d, w
+    return True, n, ''
+
+
+BOUNDED.append(('bounded/lengthtest', 'a length comparison in mixed units takes the branch of the comparison it spells: exactly one of < = > holds, the same length written '
+                'in two units is equal',
+                '10 pairs of equal lengths in different units x 3 relations (exhaustive); random pairs over 6 coefficients x 9 units (lengths closer than 2sp but unequal are '
+                'not asserted)', bounded_lengthtest))
